@@ -52,7 +52,34 @@
 (* (dispose() is called but does not clear the parser's self-references),   *)
 (* "crjoin" (update_raw() reads on while the chunk ends with a CR), "early" *)
 (* (the loader is built at call time, its disposal sits in a generator     *)
-(* that a consumer who never asks for an item never starts).               *)
+(* that a consumer who never asks for an item never starts), "window" (the  *)
+(* scanner measures a scalar line by asking for prefix(length + step)      *)
+(* windows, step doubling, instead of peek(length) unit by unit),          *)
+(* "dirtable" (processing a directive stores bound methods of the loader   *)
+(* on the loader, where dispose() does not look).                          *)
+(*                                                                         *)
+(* Token extents (Styles # {}).  A scalar is not one unit: it is an        *)
+(* indicator followed by lines of up to MaxTok units, and the scanner      *)
+(* finds out where a line ends by LOOKING: scan_plain,                     *)
+(* scan_flow_scalar_non_spaces and scan_block_scalar all run               *)
+(* "while peek(length) not in <terminators>: length += 1", i.e. they ask   *)
+(* the reader for length + 1 units, never for more than one unit beyond    *)
+(* what they have seen; then forward(length).  After a line break inside a *)
+(* scalar the plain / quoted routines check for a document marker          *)
+(* (prefix(3), peek(3): TermLen + 1 units), the block routine looks at the *)
+(* indentation (one unit).  So the look-ahead of the scanner beyond the    *)
+(* end of ANY token is a constant (<= TermLen + 1), whatever the length of *)
+(* the token: that is why the bound (1) does not depend on the content of  *)
+(* the document either.  ScalarStart / ScalarMeasure / ScalarEol /         *)
+(* ScalarNext model this for the three scanning routines.                  *)
+(*                                                                         *)
+(* Directives (Directives = TRUE).  '%YAML' / '%TAG' lines (token D) may   *)
+(* precede the '---' of an explicit document: at the start of the stream   *)
+(* or after '...'.  The scanner fetches them at a line start; the parser   *)
+(* consumes them in process_directives (parse_document_start), which       *)
+(* stores DATA only (yaml_version, tag_handles): no new reference from the *)
+(* loader to itself appears, so abandoning after a document that carried   *)
+(* directives releases the loader like any other.                          *)
 (***************************************************************************)
 EXTENDS Naturals, Sequences, FiniteSets, TLC
 HL == INSTANCE Lazy
@@ -64,6 +91,9 @@ CONSTANTS Block,      \* units per full read() (4096 / 16384 in the code)
           MaxDocs, MaxSize, MaxGap,
           Modes,      \* subset of {"scan", "parse", "load"}
           TrackBoundary, \* BOOLEAN: the environment also decides, when a read() returns, whether its last unit is a CR
+          Styles,     \* scalar scanning routines with token extents: subset of {"plain", "quoted", "block"} ({}: one-unit tokens only)
+          MaxTok,     \* longest scalar line, in units
+          Directives, \* BOOLEAN: '%YAML' / '%TAG' lines may precede an explicit document
           Variant
 
 (***************************************************************************)
@@ -81,16 +111,18 @@ VARIABLES mode,
           crs,                  \* offsets (from p) of units already committed to be a CR: the last unit of some read()
           bol,                  \* scanner is at the beginning of a line
           queue, key, sdone, swant,
+          tk,                   \* the scalar being scanned: routine, units of the current line measured so far, phase
           gen, cur, dsize, gsize, ends, bad,      \* environment grammar: where we are in the stream, document bookkeeping
           pst, ev, pwant,       \* parser state, current event, an event is wanted
           api, delivered, raised, disposed,
           built,                \* the loader object exists (Loader(stream) has run)
           selfref,              \* the loader is reachable from itself: parser.state / parser.states hold its bound methods
+          dirref,               \* ... through something stored on it while directives were processed (negative control only)
           hok                   \* H monitor
-vars == <<mode, closed, a, t, eofd, need, rst, crs, bol, queue, key, sdone, swant, gen, cur, dsize, gsize, ends,
-          bad, pst, ev, pwant, api, delivered, raised, disposed, built, selfref, hok>>
+vars == <<mode, closed, a, t, eofd, need, rst, crs, bol, queue, key, sdone, swant, tk, gen, cur, dsize, gsize, ends,
+          bad, pst, ev, pwant, api, delivered, raised, disposed, built, selfref, dirref, hok>>
 rdr == <<closed, a, t, eofd, need, rst, crs>>
-scn == <<bol, queue, key, sdone, swant>>
+scn == <<bol, queue, key, sdone, swant, tk>>
 env == <<gen, cur, dsize, gsize, bad>>
 prs == <<pst, ev, pwant>>
 top == <<api, delivered, raised, disposed, hok>>
@@ -124,7 +156,7 @@ DetEnc ==                                   \* while not eof and len(raw_buffer)
                                          /\ \E cr \in CrChoice : crs' = IF cr THEN crs \cup {a + t + k - 1} ELSE crs
           /\ UNCHANGED <<rst, need>>
      ELSE rst' = "run" /\ need' = 1 /\ UNCHANGED <<closed, t, crs>>          \* self.update(1)
-  /\ UNCHANGED <<mode, built, selfref, a, eofd, scn, env, ends, prs, top>>
+  /\ UNCHANGED <<mode, built, selfref, dirref, a, eofd, scn, env, ends, prs, top>>
 
 \* one iteration of "while len(buffer) < length": update_raw() unless eof, decode (final = eof), NUL at eof
 Refill ==
@@ -150,7 +182,7 @@ Refill ==
              \/ /\ got > 0                                          \* the batch contains an offending unit: ReaderError
                 /\ \E r \in a .. a + got - 1 : raised' = [kind |-> "reader", doc |-> 0, at |-> r]   \* r: offset from p
                 /\ t' = got /\ UNCHANGED <<a, eofd, need>>
-  /\ UNCHANGED <<mode, built, selfref, rst, scn, env, ends, prs, api, delivered, disposed, hok>>
+  /\ UNCHANGED <<mode, built, selfref, dirref, rst, scn, env, ends, prs, api, delivered, disposed, hok>>
 
 \* peek / prefix / forward ask for n units: "if pointer+n >= len(buffer): update(n)"
 Ask(n) == need' = n /\ UNCHANGED <<closed, a, t, eofd, rst, crs>>
@@ -176,11 +208,11 @@ Moved(k, n, nl) == IF k.on THEN [k EXCEPT !.dist = Min(@ + n, MaxKey + 1), !.sam
 ScanStale ==                                \* stale_possible_simple_keys
   /\ ScanActive /\ KeyStale
   /\ key' = NoKey
-  /\ UNCHANGED <<mode, built, selfref, rdr, bol, queue, sdone, swant, env, ends, prs, top>>
+  /\ UNCHANGED <<mode, built, selfref, dirref, rdr, bol, queue, sdone, swant, env, ends, prs, top>>
 ScanReady ==                                \* need_more_tokens() is false: back to whoever asked
   /\ ScanActive /\ ~KeyStale /\ ~NeedMore
   /\ swant' = FALSE
-  /\ UNCHANGED <<mode, built, selfref, rdr, bol, queue, key, sdone, env, ends, prs, top>>
+  /\ UNCHANGED <<mode, built, selfref, dirref, rdr, bol, queue, key, sdone, env, ends, prs, top>>
 
 \* the environment decides what the unit at p is; W / NL are consumed by scan_to_next_token (forward needs 2 units)
 \* forward(n) refills so that one unit after the n consumed is buffered: after a CR it must see whether an LF follows
@@ -194,7 +226,7 @@ Skip(u) ==
           /\ (0 \in crs) => u = "NL"                             \* a unit announced as CR is a line break
           /\ Advance(1) /\ key' = Moved(key, 1, u = "NL") /\ bol' = (u = "NL")
           /\ IF gen = "afterDE" THEN gsize' = gsize + 1 /\ UNCHANGED dsize ELSE dsize' = dsize + 1 /\ UNCHANGED gsize
-  /\ UNCHANGED <<mode, built, selfref, queue, sdone, swant, gen, cur, bad, prs, top>>
+  /\ UNCHANGED <<mode, built, selfref, dirref, queue, sdone, swant, gen, cur, bad, prs, top>>
 
 Push(tk) == queue' = Append(queue, tk)
 FetchEnd ==                                 \* NUL: STREAM-END; an open document ends here
@@ -204,7 +236,7 @@ FetchEnd ==                                 \* NUL: STREAM-END; an open document
           /\ Push(Tok("SE", gen = "body")) /\ sdone' = TRUE /\ key' = NoKey
           /\ ends' = IF gen = "body" THEN Append(ends, 0) ELSE ends
           /\ gen' = "end" /\ UNCHANGED rdr
-  /\ UNCHANGED <<mode, built, selfref, bol, swant, cur, dsize, gsize, bad, prs, top>>
+  /\ UNCHANGED <<mode, built, selfref, dirref, bol, swant, cur, dsize, gsize, bad, prs, top>>
 
 FetchMarker(m) ==                           \* '---' or '...' at the beginning of a line (TermLen units + 1 of look-ahead)
   /\ ScanActive /\ ~KeyStale /\ NeedMore /\ bol /\ m \in {"DS", "DE"}
@@ -218,7 +250,7 @@ FetchMarker(m) ==                           \* '---' or '...' at the beginning o
                      IN  IF gen = "body" THEN Append(moved, TermLen) ELSE moved
           /\ IF m = "DE" THEN gen' = "afterDE" /\ gsize' = 0 /\ UNCHANGED <<cur, dsize>>
              ELSE gen' = "body" /\ cur' = cur + 1 /\ dsize' = 0 /\ UNCHANGED gsize
-  /\ UNCHANGED <<mode, built, selfref, sdone, swant, bad, prs, top>>
+  /\ UNCHANGED <<mode, built, selfref, dirref, sdone, swant, bad, prs, top>>
 
 \* content tokens: K may start a simple key, T cannot, V is ':', B is lexically malformed,
 \* P / C / X are tokens the parser / composer / constructor will reject
@@ -244,7 +276,7 @@ FetchTok(u) ==
                                                       \o SubSeq(queue, key.idx, Len(queue)) \o <<Tok("VALUE", FALSE)>>
                                                  ELSE Append(queue, Tok("VALUE", FALSE))
                        [] OTHER   -> key' = NoKey /\ Push(Tok(u, FALSE))
-  /\ UNCHANGED <<mode, built, selfref, sdone, swant, gsize, prs, api, delivered, disposed, hok>>
+  /\ UNCHANGED <<mode, built, selfref, dirref, sdone, swant, gsize, prs, api, delivered, disposed, hok>>
 
 (***************************************************************************)
 (* Parser (one token of look-ahead)                                        *)
@@ -264,7 +296,7 @@ ParseDocStart0 ==                          \* parse_implicit_document_start
      ELSE /\ Keep /\ UNCHANGED raised
           /\ IF HeadTok.k \notin {"DS", "DE", "SE"} THEN pst' = "content" /\ ev' = [k |-> "DocStart", t |-> "-"]
              ELSE pst' = "dstart" /\ UNCHANGED ev
-  /\ UNCHANGED <<mode, built, selfref, rdr, env, ends, pwant, api, delivered, disposed, hok>>
+  /\ UNCHANGED <<mode, built, selfref, dirref, rdr, env, ends, pwant, api, delivered, disposed, hok>>
 
 ParseDocStart ==                           \* parse_document_start: skip '...', STREAM-END, or an explicit document
   /\ ParseActive /\ pst = "dstart"
@@ -275,7 +307,7 @@ ParseDocStart ==                           \* parse_document_start: skip '...', 
             [] OTHER -> Keep /\ raised' = [kind |-> "parser", doc |-> delivered + 1, at |-> 0] /\ UNCHANGED <<pst, ev>>
   \* "self.state = None" at STREAM-END (states and marks are empty there): the parser lets go of the loader by itself
   /\ selfref' = (selfref /\ ~(Peeked /\ HeadTok.k = "SE"))
-  /\ UNCHANGED <<mode, built, rdr, env, ends, pwant, api, delivered, disposed, hok>>
+  /\ UNCHANGED <<mode, built, dirref, rdr, env, ends, pwant, api, delivered, disposed, hok>>
 
 ParseContent ==                            \* the node events of the document, one per token here
   /\ ParseActive /\ pst = "content"
@@ -283,7 +315,7 @@ ParseContent ==                            \* the node events of the document, o
      ELSE IF HeadTok.k \in {"DS", "DE", "SE"} THEN Keep /\ pst' = "dend" /\ UNCHANGED <<ev, raised>>
      ELSE IF HeadTok.k = "P" THEN Keep /\ raised' = [kind |-> "parser", doc |-> delivered + 1, at |-> 0] /\ UNCHANGED <<pst, ev>>
      ELSE Take /\ ev' = [k |-> "Node", t |-> HeadTok.k] /\ UNCHANGED <<pst, raised>>
-  /\ UNCHANGED <<mode, built, selfref, rdr, env, ends, pwant, api, delivered, disposed, hok>>
+  /\ UNCHANGED <<mode, built, selfref, dirref, rdr, env, ends, pwant, api, delivered, disposed, hok>>
 
 ParseDocEnd ==                             \* parse_document_end: an explicit '...' belongs to the document
   /\ ParseActive /\ pst \in {"dend", "dend2"}
@@ -293,7 +325,7 @@ ParseDocEnd ==                             \* parse_document_end: an explicit '.
                         ELSE pst' = "dstart" /\ ev' = [k |-> "DocEnd", t |-> "-"])
      ELSE IF pst = "dend2" /\ HeadTok.k = "DE" THEN Take /\ UNCHANGED <<pst, ev>>
      ELSE Keep /\ pst' = "dstart" /\ ev' = [k |-> "DocEnd", t |-> "-"]
-  /\ UNCHANGED <<mode, built, selfref, rdr, env, ends, pwant, raised, api, delivered, disposed, hok>>
+  /\ UNCHANGED <<mode, built, selfref, dirref, rdr, env, ends, pwant, raised, api, delivered, disposed, hok>>
 
 (***************************************************************************)
 (* API generators and H bookkeeping                                        *)
@@ -332,7 +364,7 @@ ApiStep ==
                           THEN raised' = [kind |-> "constructor", doc |-> delivered + 1, at |-> 0] /\ UNCHANGED <<api, delivered, hok, ends>>
                           ELSE IF ev.k = "DocEnd" THEN Deliver /\ UNCHANGED raised
                           ELSE UNCHANGED <<api, delivered, raised, hok, ends>>
-  /\ UNCHANGED <<mode, built, selfref, rdr, env, disposed>>
+  /\ UNCHANGED <<mode, built, selfref, dirref, rdr, env, disposed>>
 
 \* scan / parse / compose_all / load_all are generator functions: the call only creates the generator (api = "new"); the
 \* loader is built - Parser.__init__ sets self.state = self.parse_stream_start, the first reads happen - when the first
@@ -346,10 +378,10 @@ Start ==                                   \* the first next()
 AbandonNew ==                              \* close() / drop before the first next(): k = 0
   /\ Running /\ api = "new" /\ (built => ReaderIdle)
   /\ disposed' = TRUE                      \* the generator is gone; no finally clause has run
-  /\ UNCHANGED <<mode, built, selfref, rdr, scn, env, ends, prs, api, delivered, raised, hok>>
+  /\ UNCHANGED <<mode, built, selfref, dirref, rdr, scn, env, ends, prs, api, delivered, raised, hok>>
 ApiNext ==                                 \* the consumer asks for the next item ...
   /\ Running /\ api = "yielded" /\ api' = "check"
-  /\ UNCHANGED <<mode, built, selfref, rdr, scn, env, ends, prs, delivered, raised, disposed, hok>>
+  /\ UNCHANGED <<mode, built, selfref, dirref, rdr, scn, env, ends, prs, delivered, raised, disposed, hok>>
 \* loader.dispose() is Parser.dispose: "self.states = []; self.state = None" - it breaks the reference cycle
 \* loader -> state -> bound method -> loader, so that dropping the generator frees the loader, its stream and buffers by
 \* reference counting.  Negative control "shadow": dispose() is called but resolves to a method that leaves the
@@ -358,11 +390,11 @@ Dispose == /\ disposed' = TRUE /\ selfref' = (Variant = "shadow" /\ selfref)
 Abandon ==                                 \* ... or closes the generator (or it is exhausted): finally: loader.dispose()
   /\ Running /\ api \in {"yielded", "finished"}
   /\ Dispose
-  /\ UNCHANGED <<mode, built, rdr, scn, env, ends, prs, api, delivered, raised, hok>>
+  /\ UNCHANGED <<mode, built, dirref, rdr, scn, env, ends, prs, api, delivered, raised, hok>>
 Unwind ==                                  \* an error leaves the generator through the same finally clause
   /\ raised # NoErr /\ ~disposed
   /\ Dispose
-  /\ UNCHANGED <<mode, built, rdr, scn, env, ends, prs, api, delivered, raised, hok>>
+  /\ UNCHANGED <<mode, built, dirref, rdr, scn, env, ends, prs, api, delivered, raised, hok>>
 
 Init ==
   /\ mode \in Modes
